@@ -49,6 +49,11 @@ func c10Ops() []c10Op {
 		}
 		ops = append(ops, c10Op{Text: fmt.Sprintf("%s = 41\nadd_key(%s)", k, k)})
 		ops = append(ops, c10Op{Text: fmt.Sprintf("%s = [2]\nadd_key(%s)", k, k)})
+		// containers without a JSON form (a non-finite float inside, a cycle):
+		// the stored value and its index entry must still agree
+		ops = append(ops, c10Op{Text: fmt.Sprintf("add_key(%s, [1e308 * 10.0, 2])", k)})
+		ops = append(ops, c10Op{Text: fmt.Sprintf("%s = [1]\n%s[0] = %s\nadd_key(%s)", k, k, k, k)})
+		ops = append(ops, c10Op{Text: fmt.Sprintf("zm = {\"a\": 1}\nzm[\"a\"] = zm\nadd_key(%s, zm)", k)})
 		ops = append(ops, c10Op{Text: fmt.Sprintf("add_key(%s)", k)})
 		ops = append(ops, c10Op{Text: fmt.Sprintf("set_tag(%s)", k)})
 		ops = append(ops, c10Op{Text: fmt.Sprintf("set_tag(%s, \"tv2\")", k)})
